@@ -9,6 +9,7 @@ import PgVerif.Spec.LR1
 import PgVerif.Spec.Prec
 import PgVerif.Spec.LexRules
 import PgVerif.Proofs.LexRules
+import PgVerif.Proofs.ForestConcrete
 import PgVerif.Model.Actions
 import PgVerif.Model.Recovery
 import PgVerif.Model.Cache
@@ -432,6 +433,9 @@ def handle (st : St) (cmd : String) (args : List Nat) : St × String :=
     | pos :: text => let r := posToLineCol text pos; (st, s!"linecol {r.1} {r.2}")
     | _ => (st, "bad-linecol")
   | "fwf" => (st, if st.F.wf then "fwf 1" else "fwf 0")
+  | "fkeyed" =>
+    -- fkeyed <lhs of production 0> <lhs of production 1> ...: hypothesis of C03_parse_trees_pairwise_distinct
+    (st, if st.F.keyed (fun p => args.getD p 0) then "fkeyed 1" else "fkeyed 0")
   | "sols" =>
     match args with
     | [root] => (st, s!"sols {solutions st.F root}")
